@@ -18,7 +18,8 @@ use std::time::Duration;
 pub struct Case {
     pub root: usize,
     pub puzzle: String,
-    /// 0: file in / stdout; 1: stdin / stdout; 2: file in / file out
+    /// 0: file in / stdout; 1: stdin / stdout; 2: file in / file out; 3: named pipe as INPUT;
+    /// 4: /dev/stdin as INPUT; 5: stdin in small pieces (see common::plan_input)
     pub io: u8,
     /// compare the complete model set (else: structural probes only)
     pub exact: bool,
@@ -42,20 +43,19 @@ pub fn check_case(ctx: &Ctx, st: &mut Stats, c: &Case, tag: &str) {
     st.evals += 1;
     let dir = ctx.fresh_dir(&format!("c17-{}", tag));
     let _ = std::fs::create_dir_all(&dir);
-    let input = dir.join("puzzle.txt");
-    let output = dir.join("out.txt");
-    let _ = std::fs::write(&input, c.puzzle.as_bytes());
+    let output = dir.join(super::common::hostile_file_name(c.puzzle.len(), "out.txt"));
+    let plan = super::common::plan_input(c.io, &dir, "puzzle.txt", c.puzzle.as_bytes());
     let mut args = vec!["-r".to_string(), c.root.to_string()];
-    let stdin = if c.io == 1 { Some(c.puzzle.as_bytes().to_vec()) } else { None };
-    if c.io != 1 {
-        args.push(input.display().to_string());
+    if let Some(p) = &plan.path_arg {
+        args.push(p.clone());
     }
     if c.io == 2 {
         // the output file already exists and is longer than what will be written
         let _ = std::fs::write(&output, super::common::stale_content());
         args.push(output.display().to_string());
     }
-    let out = cli::run(&ctx.bin("sudoku_gen"), &args, stdin.as_deref(), Some(&dir), None, Duration::from_secs(60));
+    st.bump(&format!("input_channel_{}", c.io));
+    let out = cli::run_fed(&ctx.bin("sudoku_gen"), &args, plan.stdin.as_deref(), &plan.feed, Some(&dir), None, Duration::from_secs(60));
     let text = if c.io == 2 { std::fs::read_to_string(&output).unwrap_or_default() } else { out.stdout_str() };
     let _ = std::fs::remove_dir_all(&dir);
     let case = || c.to_json();
@@ -347,7 +347,7 @@ fn job(ctx: &Ctx, jb: usize, r2: u64, r3: u64, r4: u64) -> Stats {
             1 => text.push_str("1234....1"),
             _ => {}
         }
-        check_case(ctx, &mut st, &Case { root: 2, puzzle: text, io: rng.below(3) as u8, exact: true, known_solution: None }, &format!("{}-a{}", jb, i));
+        check_case(ctx, &mut st, &Case { root: 2, puzzle: text, io: rng.below(super::common::INPUT_MODES) as u8, exact: true, known_solution: None }, &format!("{}-a{}", jb, i));
     }
     // r = 3: puzzles with 30-60 givens from valid grids (small solution sets) — exact
     for i in 0..r3 {
@@ -364,7 +364,7 @@ fn job(ctx: &Ctx, jb: usize, r2: u64, r3: u64, r4: u64) -> Stats {
             grid[a] = 1 + rng.usize(9); // often contradictory
         }
         let text = layout(&mut rng, 3, &grid);
-        check_case(ctx, &mut st, &Case { root: 3, puzzle: text, io: rng.below(3) as u8, exact: true, known_solution: None }, &format!("{}-b{}", jb, i));
+        check_case(ctx, &mut st, &Case { root: 3, puzzle: text, io: rng.below(super::common::INPUT_MODES) as u8, exact: true, known_solution: None }, &format!("{}-b{}", jb, i));
     }
     // r = 3 (empty / sparse) and r = 4: structural probes
     for i in 0..r4 {
@@ -378,7 +378,7 @@ fn job(ctx: &Ctx, jb: usize, r2: u64, r3: u64, r4: u64) -> Stats {
             }
         }
         let text = layout(&mut rng, root, &grid);
-        check_case(ctx, &mut st, &Case { root, puzzle: text, io: rng.below(3) as u8, exact: false, known_solution: Some(full.clone()) }, &format!("{}-c{}", jb, i));
+        check_case(ctx, &mut st, &Case { root, puzzle: text, io: rng.below(super::common::INPUT_MODES) as u8, exact: false, known_solution: Some(full.clone()) }, &format!("{}-c{}", jb, i));
     }
     st
 }
@@ -392,7 +392,7 @@ pub fn run(ctx: &Ctx) -> (Stats, Spec) {
     for a in ["", "1", ".", " "] {
         for b in ["", "1", ".", " "] {
             k += 1;
-            check_case(ctx, &mut st, &Case { root: 1, puzzle: format!("{}{}", a, b), io: (k % 3) as u8, exact: true, known_solution: None }, &format!("r1-{}", k));
+            check_case(ctx, &mut st, &Case { root: 1, puzzle: format!("{}{}", a, b), io: (k % 6) as u8, exact: true, known_solution: None }, &format!("r1-{}", k));
         }
     }
     st.exhaustive.push("root 1: every input of length <= 2 over {1, ., space}".into());
@@ -411,11 +411,13 @@ pub fn run(ctx: &Ctx) -> (Stats, Spec) {
     // puzzle texts larger than any I/O buffer: the 16 cells spread over ~30 KiB of whitespace
     for (k, pad) in ["\n".repeat(2_000), " \t".repeat(1_000), "\r\n\u{a0}".repeat(600)].iter().enumerate() {
         let puzzle: String = "1.3...2.....4...".chars().map(|c| format!("{}{}", c, pad)).collect();
-        check_case(ctx, &mut st, &Case { root: 2, puzzle, io: (k % 3) as u8, exact: true, known_solution: None }, &format!("large-{}", k));
-        st.bump("large_inputs");
+        for io in [k as u8, k as u8 + 3] {
+            check_case(ctx, &mut st, &Case { root: 2, puzzle: puzzle.clone(), io, exact: true, known_solution: None }, &format!("large-{}-{}", k, io));
+            st.bump("large_inputs");
+        }
     }
     let spec = Spec {
-        rule: "root 1 exhaustively; root 2: the empty puzzle (288 grids) and random hint patterns (0-16 givens taken from valid grids, contradictory patterns incl. box-only conflicts, truncated and over-long inputs, puzzle texts spread over ~30 KiB of whitespace, 5 layouts with spaces/newlines/tabs/CRLF, 12 blank symbols incl. the double quote and multi-byte characters (·, □, ＿, é), ASCII and Unicode whitespace); root 3: puzzles with 30-60 givens derived from generated valid grids and the repository's example (exact model sets), sparse puzzles and root 4 by structural probes (same digit twice in a unit, two digits / no digit in a cell, givens enforced, a valid grid satisfies, near-misses falsify). Exact = all models enumerated, decoded through _c_is_d and compared as a set with an independent backtracking solver. distinct = (root, normalised givens); non-trivial = at least one given and one blank.".into(),
+        rule: "root 1 exhaustively; root 2: the empty puzzle (288 grids) and random hint patterns (0-16 givens taken from valid grids, contradictory patterns incl. box-only conflicts, truncated and over-long inputs, puzzle texts spread over ~30 KiB of whitespace, 5 layouts with spaces/newlines/tabs/CRLF, 6 input channels (regular file, stdin at once / in small pieces, a named pipe or /dev/stdin as INPUT, file-to-file onto an existing longer file), 12 blank symbols incl. the double quote and multi-byte characters (·, □, ＿, é), ASCII and Unicode whitespace); root 3: puzzles with 30-60 givens derived from generated valid grids and the repository's example (exact model sets), sparse puzzles and root 4 by structural probes (same digit twice in a unit, two digits / no digit in a cell, givens enforced, a valid grid satisfies, near-misses falsify). Exact = all models enumerated, decoded through _c_is_d and compared as a set with an independent backtracking solver. distinct = (root, normalised givens); non-trivial = at least one given and one blank.".into(),
         assumptions: vec![
             "givens are digits between 1 and r^2; 0 and larger digits are outside the statement's domain and are not generated".into(),
             "rsbdd itself cannot solve even the 4x4 formula within minutes, so there is no engine cross-check here".into(),
